@@ -576,7 +576,7 @@ class Lifetime:
         self.mid = 0
 
     # -- single API calls ----------------------------------------------------
-    def _protect(self, how, msg, request_id=None):
+    def _protect(self, how, msg, request_id=None, answering=None):
         try:
             outer, rid = self.ctx.protect(msg, request_id) if request_id is not None else self.ctx.protect(msg)
         except oscore.ContextUnavailable as e:
@@ -585,12 +585,16 @@ class Lifetime:
         except Exception as e:  # noqa: BLE001 - recorded, judged by the check
             self.rec.protect_raised(how, e)
             return None
-        self._issued(how, outer)
+        self._issued(how, outer, answering)
         return outer, rid
 
-    def _issued(self, how, outer):
+    def _issued(self, how, outer, answering=None):
         self.mid = (self.mid + 1) & 0xFFFF
         piv, data = wire_piv(outer, self.mid)
+        if piv is None and answering is not None:
+            # no Partial IV of its own: the message was protected under the nonce of the request it answers
+            # (the peer's sender ID and sequence number `answering`)
+            how = "%s@%d" % (how, answering)
         self.rec.issued(piv, how, data)
 
     def initialised(self):
@@ -616,7 +620,7 @@ class Lifetime:
             except Exception as e2:  # noqa: BLE001
                 self.rec.protect_raised("echo-4.01", e2)
                 return "R"
-            self._issued("echo-4.01", resp)
+            self._issued("echo-4.01", resp, n)
             try:
                 return self.peer.echo_from(resp, rid_peer) or "R"
             except Exception as e3:  # noqa: BLE001
@@ -631,7 +635,7 @@ class Lifetime:
             return "R"
         self.rec.accepted(n, echo)
         for _ in range(responses):
-            self._protect("response", Message(code=aiocoap.CONTENT, payload=b"x"), rid)
+            self._protect("response", Message(code=aiocoap.CONTENT, payload=b"x"), rid, answering=n)
         return "A"
 
     def op(self, op, st):
